@@ -66,7 +66,7 @@ def impl(c):
     return ("living", out)
 
 
-def oracle(prop_oracle, c, r, judge_ops=None, illformed_fails=False):
+def oracle(prop_oracle, c, r, judge_ops=None, illformed_fails=False, inside=None):
     for i, (step, rl, rf) in enumerate(r[1]):
         if rl is None:
             # judged where the property is about reachable tiers (C05: ILLFORMED_IS_FAILURE); elsewhere a history that left
@@ -77,7 +77,9 @@ def oracle(prop_oracle, c, r, judge_ops=None, illformed_fails=False):
                                f"refused by its own constructor ({rf[1]}: {rf[2]})")
             return None
         where = f"step {i} ({step['op']}) of a history on living objects {[s['op'] for s in c['steps']]}"
-        if c["steps"][i].get("judge") and (judge_ops is None or step["op"] in judge_ops):
+        # inside(step): the step lies inside the property's quantifier (e.g. C15 speaks of getNonEntries "on a tier with
+        # entries"; a history may empty the tier) - outside it only history-independence is demanded
+        if c["steps"][i].get("judge") and (judge_ops is None or step["op"] in judge_ops) and (inside is None or inside(step)):
             f = prop_oracle(step, rl)
             if f is not None:
                 return Failure(dict(f.signature, living=True), f"{where}: {f.message}")
@@ -184,7 +186,7 @@ def _done(cur):
     return {k: v for k, v in cur.items() if not k.startswith("_")}
 
 
-def install(g, judge_ops=None, rate=0.12, cap=1500, cap_thorough=12000, illformed_fails=False):
+def install(g, judge_ops=None, rate=0.12, cap=1500, cap_thorough=12000, illformed_fails=False, only_ops=None, inside=None):
     """wrap a property module's encode/impl/render/oracle/tags/nontrivial/wants_x/shrink/gen so that living cases built
     from its own generated step-wise cases ride along (g = the module's globals())"""
     o_enc, o_impl, o_render, o_oracle = g["encode"], g["impl"], g["render"], g["oracle"]
@@ -193,7 +195,7 @@ def install(g, judge_ops=None, rate=0.12, cap=1500, cap_thorough=12000, illforme
     g["encode"] = lambda c, enc: encode(c, enc) if is_living(c) else o_enc(c, enc)
     g["impl"] = lambda c, *a: impl(c) if is_living(c) else o_impl(c, *a)
     g["render"] = lambda c, r, enc: render(c, r, enc) if is_living(c) else o_render(c, r, enc)
-    g["oracle"] = lambda c, r: oracle(o_oracle, c, r, judge_ops, illformed_fails) if is_living(c) else o_oracle(c, r)
+    g["oracle"] = lambda c, r: oracle(o_oracle, c, r, judge_ops, illformed_fails, inside) if is_living(c) else o_oracle(c, r)
     g["tags"] = lambda c, r: tags(c, r) if is_living(c) else o_tags(c, r)
     g["nontrivial"] = lambda c, r: nontrivial(c, r) if is_living(c) else o_nt(c, r)
     g["wants_x"] = lambda c: False if is_living(c) else o_wx(c)
@@ -206,7 +208,7 @@ def install(g, judge_ops=None, rate=0.12, cap=1500, cap_thorough=12000, illforme
         n, limit = 0, (cap_thorough if tier == "thorough" else cap)
         for c in o_gen(rnd, tier):
             yield c
-            if n < limit and isinstance(c, dict) and "tier" in c and not str(c.get("op", "")).startswith("tg_") and lr.random() < rate:
+            if n < limit and isinstance(c, dict) and "tier" in c and not str(c.get("op", "")).startswith("tg_") and (only_ops is None or c.get("op") in only_ops) and lr.random() < rate:
                 lc = sandwich(lr, c)
                 if lc is not None:
                     n += 1
